@@ -141,9 +141,11 @@ def _run_history(obs, plan_ctx, events_items, tol, flip):
     from ropt.plan import Event, Plan  # noqa: PLC0415
 
     plan = Plan(plan_ctx)
-    src, other = uuid.uuid4(), uuid.uuid4()
-    hb = plan.add_handler("tracker", what="best", constraint_tolerance=tol, sources={src})
-    hl = plan.add_handler("tracker", what="last", constraint_tolerance=tol, sources={src})
+    # the trackers follow two steps (a multi-stage plan): tracked events come from either of them in turn - what counts is the
+    # whole history of the tracked sources (the BasicOptimizer cases below track a single source)
+    src, src2, other = uuid.uuid4(), uuid.uuid4(), uuid.uuid4()
+    hb = plan.add_handler("tracker", what="best", constraint_tolerance=tol, sources={src, src2})
+    hl = plan.add_handler("tracker", what="last", constraint_tolerance=tol, sources={src, src2})
     ref = Ref(tol)
     obs.count("histories")
     for k, (tracked, items) in enumerate(events_items):
@@ -157,7 +159,7 @@ def _run_history(obs, plan_ctx, events_items, tol, flip):
         data = {"results": tuple(u for u, _, _ in items)}
         if flip:
             data["transformed_results"] = tuple(t for _, t, _ in items)
-        plan.emit_event(Event(event_type=EventType.FINISHED_EVALUATION, config=_cfg(), source=src if tracked else other, data=data))
+        plan.emit_event(Event(event_type=EventType.FINISHED_EVALUATION, config=_cfg(), source=((src, src2)[k % 2] if tracked else other), data=data))
         ref.feed(tracked, items)
         obs.count("states_compared", 2)
         gb, gl = plan.get(hb, "results"), plan.get(hl, "results")
